@@ -557,3 +557,77 @@ def floor_subscript_variant(cp: Compiled) -> Compiled | None:
     except CodegenFailure:
         return None
     return Compiled(cp.t_unit, r[0], lib, cp.fname, cp.params, cp.kernel)
+
+
+# ---------------------------------------------------------------------------
+# attribution experiment: some of loopy's passes key their memo tables by expression
+# EQUALITY, and np.float32(1.0) == np.float64(1.0) == np.complex128(1.0) (same hash): two
+# sub-expressions that differ only in the dtype of a constant get one answer.  Wrapping
+# every typed inexact constant in a cast to its own type leaves the kernel's meaning
+# unchanged and makes such sub-expressions unequal.
+
+def equal_constants_of_different_dtype(t_unit: Any) -> bool:
+    import pymbolic.primitives as p
+    seen: dict[Any, set[str]] = {}
+
+    def walk(e: Any) -> None:
+        if isinstance(e, (np.floating, np.complexfloating)):
+            seen.setdefault(complex(e), set()).add(e.dtype.name)
+        elif isinstance(e, p.ExpressionNode):
+            import dataclasses
+            for f in dataclasses.fields(e):  # type: ignore[arg-type]
+                v = getattr(e, f.name)
+                for c in (v if isinstance(v, tuple) else (v,)):
+                    walk(c)
+    knl = t_unit.default_entrypoint
+    for insn in knl.instructions:
+        walk(getattr(insn, "expression", None))
+    for r in knl.substitutions.values():
+        walk(r.expression)
+    return any(len(v) > 1 for v in seen.values())
+
+
+def typed_constants_variant(t_unit: Any) -> Any:
+    """The translation unit with every np.floating / np.complexfloating constant c outside
+    subscripts replaced by TypeCast(c.dtype, c); None if it holds no such pair."""
+    import loopy as lp
+    from loopy.symbolic import IdentityMapper
+    if not equal_constants_of_different_dtype(t_unit):
+        return None
+
+    class M(IdentityMapper):  # type: ignore[misc]
+        def map_constant(self, expr: Any, *a: Any) -> Any:
+            if isinstance(expr, (np.floating, np.complexfloating)):
+                return lp.TypeCast(expr.dtype, expr)
+            return expr
+
+        def map_subscript(self, expr: Any, *a: Any) -> Any:
+            return expr          # index arithmetic stays untouched
+
+        def map_type_cast(self, expr: Any, *a: Any) -> Any:
+            if isinstance(expr.child, (np.floating, np.complexfloating)):
+                return expr
+            return super().map_type_cast(expr, *a)
+    m = M()
+    knl = t_unit.default_entrypoint
+    insns = [i.with_transformed_expressions(m) for i in knl.instructions]
+    substs = {n: r.copy(expression=m(r.expression)) for n, r in knl.substitutions.items()}
+    return t_unit.with_kernel(knl.copy(instructions=insns, substitutions=substs))
+
+
+def subst_rules_merged_across_dtype(pre_t_unit: Any, post_t_unit: Any) -> bool:
+    """pytato's kernel holds two substitution rules whose bodies are Python-equal but differ
+    in the dtype of a constant (typed repr differs: `0 + np.float32(1.0)` vs
+    `0 + np.complex128(1+0j)`), and the kernel after loopy's first passes holds fewer rules:
+    loopy merged them (it compares rule bodies with ==)."""
+    pre = pre_t_unit.default_entrypoint.substitutions
+    post = post_t_unit.default_entrypoint.substitutions
+    if len(post) >= len(pre):
+        return False
+    rules = list(pre.values())
+    for i, r1 in enumerate(rules):
+        for r2 in rules[i + 1:]:
+            if r1.arguments == r2.arguments and r1.expression == r2.expression \
+                    and repr(r1.expression) != repr(r2.expression):
+                return True
+    return False
